@@ -14,3 +14,11 @@ Theorem c11_known_kinds : forall e, known_env e -> forall progs, wf_progs progs 
 Proof. exact known_C11. Qed.
 Print Assumptions c11_known_kinds.
 
+
+(** the wrapper over an arbitrary iterator (exact, inexact and unbounded size hints) *)
+From OCI.proofs Require Import IterBase ChkIter IterC11.
+Theorem c11_wrapped_iterator : forall e, iter_env e -> forall progs, wf_progs progs -> forall sched,
+  nowrap (c_labels (exec e (init progs) sched)) ->
+  chk_C11 e (c_trace (exec e (init progs) sched)) = true.
+Proof. exact iter_C11. Qed.
+Print Assumptions c11_wrapped_iterator.
